@@ -1,8 +1,15 @@
 """'An interrupt or allocation failure at an arbitrary instant' without touching the sources:
 count line events in files under <repo>/nbdime/ during one operation and raise a chosen
 exception at the N-th."""
+import linecache
 import os
 import sys
+
+
+def _is_noop_line(frame):
+    """A line holding only a block keyword executes no instruction that can raise, and CPython delivers asynchronous
+    exceptions only at calls and backward jumps - an abort there exists only under a tracer."""
+    return linecache.getline(frame.f_code.co_filename, frame.f_lineno).strip() in ("try:", "else:", "finally:")
 
 
 class TraceFault:
@@ -30,6 +37,9 @@ class TraceFault:
         if event == "line" and not self.fired:
             self.count += 1
             if self.count == self.at:
+                if _is_noop_line(frame):
+                    self.at += 1          # nothing real can strike on a bare `try:`: the next statement it is
+                    return self._local
                 self.fired = True
                 self.where = "%s:%d" % (os.path.relpath(frame.f_code.co_filename, self.prefix), frame.f_lineno)
                 raise self.exc_factory()
@@ -79,7 +89,9 @@ class FuncFault(TraceFault):
             key = "%s:%s" % (os.path.basename(frame.f_code.co_filename), frame.f_code.co_name)
             if key == self.func:
                 self.count += 1
-                if self.count == self.at:
+                if self.count == self.at and _is_noop_line(frame):
+                    self.at += 1
+                elif self.count == self.at:
                     self.fired = True
                     self.where = "%s:%d" % (os.path.relpath(frame.f_code.co_filename, self.prefix), frame.f_lineno)
                     raise self.exc_factory()
@@ -94,7 +106,12 @@ class DirtyProfile(TraceFault):
 
     The line event that fires just before a component returns to its start value belongs to the statement that
     *restores* it (e.g. the assignment inside a `finally:`).  No code can protect itself against an asynchronous
-    exception delivered inside its own clean-up statement, so those instants are never chosen as abort points."""
+    exception delivered inside its own clean-up statement, so those instants are never chosen as abort points.
+
+    Line events of bare block keywords (`try:`, `else:`, `finally:`) execute no instruction that can raise, and
+    CPython delivers asynchronous exceptions (signals -> KeyboardInterrupt) only at calls and backward jumps: in
+    `flag = True` / `try:` / `    work()` nothing real can strike between the assignment and the protected
+    region.  A tracer can; those instants are never chosen either (an abort planned there moves to the next line)."""
 
     def __init__(self, repo_root, fingerprint):
         super().__init__(repo_root, -1, RuntimeError)
@@ -102,11 +119,14 @@ class DirtyProfile(TraceFault):
         self.start = fingerprint()
         self.dirty = [[] for _ in self.start]
         self.funcs = []          # function key of every line event, in order
+        self.noop = set()        # line events on bare block keywords
 
     def _local(self, frame, event, arg):
         if event == "line":
             self.count += 1
             self.funcs.append("%s:%s" % (os.path.basename(frame.f_code.co_filename), frame.f_code.co_name))
+            if _is_noop_line(frame):
+                self.noop.add(self.count)
             now = self.fp()
             for i, v in enumerate(now):
                 if v != self.start[i]:
@@ -126,7 +146,7 @@ class DirtyProfile(TraceFault):
         out = []
         for i, v in enumerate(end):
             if v == self.start[i]:
-                out.extend(c for c in self.dirty[i] if c not in restoring)
+                out.extend(c for c in self.dirty[i] if c not in restoring and c not in self.noop)
         return sorted(set(out))
 
     def avoid_restoring(self, at):
@@ -134,6 +154,8 @@ class DirtyProfile(TraceFault):
         restoring = self.restoring_instants()
         while at in restoring and at > 1:
             at -= 1
+        while at in self.noop and at < self.count:
+            at += 1
         return at
 
     def kth_line_of(self, func, k):
